@@ -5,7 +5,7 @@ use multihash::Multihash;
 use multihash_codetable::{Code, MultihashDigest};
 
 use crate::child::ChildExec;
-use crate::cidexec::{cid_oracle, hash_oracle, show_cid, CONV_SIZES};
+use crate::cidexec::{cid_oracle, hash_oracle, show_cid, CONV_BIG_TARGETS, CONV_SIZES};
 use crate::rng::Rng;
 use crate::sink::Sink;
 use crate::streams::codec::{gen_entry, mutate};
@@ -225,8 +225,9 @@ pub fn conv_stream(seed: u64, cases: usize, ex: &mut ChildExec) -> Sink {
         sink.push(op, imp, oracle);
     };
     // every pair of capacities x every digest length 0..=64 (v1), plus v0
+    let targets: Vec<usize> = CONV_SIZES.iter().chain(CONV_BIG_TARGETS.iter()).copied().collect();
     for &s in &CONV_SIZES {
-        for &t in &CONV_SIZES {
+        for &t in &targets {
             for len in 0..=64usize {
                 if len > s {
                     continue;
@@ -242,7 +243,7 @@ pub fn conv_stream(seed: u64, cases: usize, ex: &mut ChildExec) -> Sink {
     }
     for _ in 0..cases {
         let s = *rng.pick(&CONV_SIZES);
-        let t = *rng.pick(&CONV_SIZES);
+        let t = *rng.pick(&targets);
         let len = rng.below(s.min(64) + 1);
         let d = rng.bytes(len);
         let codec = *rng.pick(&bounds);
